@@ -67,7 +67,9 @@ class C08(Check):
                          "refs_agree_partial", "start_order_counterexample", "nth_weekday_correct", "nth_weekday_agrees_with_spec",
                          "weekday_next_correct", "isInTimeRange_calendar_days", "tz_hypotheses_satisfiable", "day_loop_covers",
                          "scriptFunc_spec", "dayMatches_single", "dayMatches_weekday", "dayMatches_date", "dayMatches_nthWeekday",
-                         "dayMatches_range"]
+                         "dayMatches_range", "dayMatches_monthDay", "dayMatches_nthWeekday_last", "rangeSeg_wrap_and_24h",
+                         "update_asks_refreshed_region", "tick_asks_refreshed_region", "update_step_ok", "tickLoop_ok", "step_ok", "world_trace_spec", "world_trace_spec_from_config", "world_start_order_counterexample",
+                         "inside_window_formula", "legacy_update_end_to_end", "weekday_table_matches_source", "month_table_matches_source", "weekday_numbers_are_tm_wday"]
     technique = ("Lean 4 proof (algebraic laws by induction over the segment list, lifted through the folds of Merge/UpdateRegion) over a "
                  "hand-written literal model; correspondence by exhaustive + random differential execution of real TimePeriod objects "
                  "(UpdateRegion, IsInside, includes/excludes by name) and of LegacyTimePeriod::ScriptFunc under five time zones")
@@ -80,16 +82,28 @@ class C08(Check):
                   "Activation and the 300 s timer are modelled: start_spec (TimePeriod::Start = clearing update of now..now+24h), purge_keeps_future (PurgeSegments changes no "
                   "answer from the cut-off on, for every state), timerTick_spec (one UpdateTimerHandler run - purge + non-clearing update from valid_end - satisfies the executable "
                   "tick specification for every state, inputs and clock value: window reaches from now to now+24h, formula at every instant from the cut-off on, nothing changes when "
-                  "nothing is refreshed). Agreement with the referenced periods THEMSELVES (their own current answers instead of the merged lists) holds only under the hypothesis "
+                  "nothing is refreshed); update_asks_refreshed_region / tick_asks_refreshed_region: whenever a region is refreshed the update function is invoked for a region that covers it "
+                  "(spec clause own_ranges_computed_for_the_refreshed_region, evaluated on the implementation's observed invocation). WHOLE-TRACE theorem world_trace_spec(_from_config): a world of any number of configured periods whose includes/excludes are looked up BY NAME "
+                  "at the moment of each operation (dangling, cyclic, self-referring names allowed), and EVERY sequence of UpdateRegion calls, activations (Start) in any order and timer runs "
+                  "in any iteration order at any clock values - every observation of the run satisfies the specification; the invariant (stored segments non-empty) is proved preserved by every "
+                  "operation (step_ok), so the per-call hypotheses are discharged, not assumed. Agreement with the referenced periods THEMSELVES (their own current answers instead of the merged lists) holds only under the hypothesis "
                   "that they had been computed for the instant before they were merged (refs_agree_partial); start_order_counterexample is the model-level witness of F-C08c. "
                   "Calendar layer (token-level core; the string reader is tied by correspondence): for every entry list, window and time-zone parameter with "
                   "23-46 h days, scriptFunc_spec - an instant lies in a returned segment iff a local day of the window matches an entry's day definition and "
                   "the instant lies in one of its ranges on that day; day_loop_covers - the loop visits exactly the local days of the window, once, in order; "
                   "matching is characterised declaratively for weekday, calendar date, n-th weekday and day ranges with calendar-day stride "
-                  "(isInTimeRange_calendar_days, full since the repair of F-C08b, commit 3f58d09)")
+                  "(isInTimeRange_calendar_days, full since the repair of F-C08b, commit 3f58d09), for month-day forms 'day N' / '<month> N' including negative N = counted back from the "
+                  "last day of the month (dayMatches_monthDay), for the n-th LAST weekday (dayMatches_nthWeekday_last); rangeSeg_wrap_and_24h: a range that wraps or ends at 24:00 ends at that "
+                  "local time of the NEXT calendar day (24:00 = next local midnight, also on 23/25-hour days). END-TO-END legacy_update_end_to_end: for one UpdateRegion of a period whose update function is ScriptFunc (fed the region the interval layer really "
+                  "passes, begin clamped to valid_end), IsInside(t) at every instant of the window holds iff [some local day of the region matches an entry and t lies in one of its ranges, or t was "
+                  "stored before outside the refreshed region] combined with the included/excluded lists by the prefer_includes formula - the two layers composed, returned segments proved non-empty (scriptFunc_wf). "
+                  "The weekday and month name tables of the model (shared with the declarative "
+                  "predicate) are proved equal, for every string, to the tables regenerated from LegacyTimePeriod::WeekdayFromString/MonthFromString of the checked tree (gen/c08_tables.py; "
+                  "weekday_table_matches_source, month_table_matches_source) and to the calendar's numbering (weekday_numbers_are_tm_wday)")
     level_note = ("Trusted: Lean kernel (+ propext, Classical.choice, Quot.sound), sampled correspondence (exhaustive over the endpoint alphabet 0..5/0..6, random "
                   "nested forests, five time zones), harness/driver, libc mktime/localtime_r + tzdata (oracle input). The calendar theorems assume TzOk/TzDrift of the "
-                  "time-zone parameter; the driver checks them on the probed offsets of every run.")
+                  "time-zone parameter; the driver checks them on the probed offsets of every run. The weekday/month name tables are regenerated from the source at every run "
+                  "(gen/c08_tables.py) and compared with the model's by theorem; the declarative calendar predicate calSpec is NOT proved equal to the model (sampled only).")
     trusted_base = [
         "modelled, not verified: libc mktime/localtime_r and the tz database enter the calendar model as the probed list of UTC-offset changes (oracle input per process)",
         "calendar layer (LegacyTimePeriod::ScriptFunc, ParseTimeSpec/ParseTimeRange/FindNthWeekday/IsInTimeRange/ProcessTimeRanges): literal model + declarative predicate, "
@@ -100,14 +114,19 @@ class C08(Check):
         "when a referenced period whose update function was not asked was purged cannot be observed - the model returns the allowed set (both)",
         "after a timer run only the answers from the purge cut-off (now - 1 h) on are compared and specified: the window may reach back into the purged past "
         "(merging a straddling or not yet purged segment of a referenced period widens valid_begin again) where the period's own segments are gone",
+        "the is_inside attribute as consumers read it (GetIsInside() and the reflected field, at the virtual clock - inside the window, at and beyond its end, on never-updated "
+        "periods) is driven and held against the same clauses as IsInside(t)",
+        "the declarative calendar predicate calSpec (closed forms on civil dates: daysInMonth, n-th weekday of a month) is evaluated on every ScriptFunc result of the runs but is NOT "
+        "proved equal to the model for all inputs: that needs civilFromDays/daysFromCivil to be inverse bijections, which omega does not find; the closed forms that ARE proved "
+        "(dayMatches_*) are stated on day numbers relative to the first day of the month",
         "not modelled: Convert::ToLong corner cases beyond sign+digits, range boundaries inside a skipped or repeated local hour (excluded by the property), "
-        "GetIsInside()/FindNextTransition consumers, fractional time stamps",
+        "FindNextTransition, ValidateRanges, fractional time stamps",
     ]
     assumptions = [
         "segment boundaries are integers (exact in binary64)",
         "only the covered set of a segment list is property-relevant: implementation and model lists are compared after canonicalisation (empty dropped, sorted, "
         "overlapping/touching merged), and each model step starts from the implementation's observed state",
-        "updateRegion_spec / timerTick_spec take the included/excluded periods as the segment lists that were merged; that those lists are what the referenced periods "
+        "updateRegion_spec / timerTick_spec take the included/excluded periods as the segment lists that were merged (world_trace_spec: as the lists found by name in the world at that moment); that those lists are what the referenced periods "
         "mean at the instant is NOT assumed any more but checked (clause inside_agrees_with_included_and_excluded_periods, calendar periods through Start/timer/UpdateRegion) "
         "- it fails on the unchanged tree when the referenced period is computed later (F-C08c, known finding)",
         "every stored and supplied segment has begin < end (ProcessTimeRanges skips empty ranges); the region satisfies begin <= end",
@@ -115,6 +134,20 @@ class C08(Check):
     ]
 
     # -------------------------------------------------------------------------------------------
+    def generate(self):
+        """Translator: the weekday / month name tables of lib/icinga/legacytimeperiod.cpp -> IcingaProofs/Gen/C08Tables.lean
+        (theorems weekday_table_matches_source / month_table_matches_source compare them with the model's, for every string)."""
+        import importlib.util
+        gen = os.path.join(core.ROOT, "gen", "c08_tables.py")
+        spec = importlib.util.spec_from_file_location("c08_tables", gen)
+        mod = importlib.util.module_from_spec(spec)
+        spec.loader.exec_module(mod)
+        try:
+            with core.Lock("lake"):
+                self.name_tables = mod.generate(core.REPO, os.path.join(core.LEAN, "IcingaProofs", "Gen", "C08Tables.lean"))
+        except mod.Lost as e:
+            raise core.TieBroken("translator:C08:anchor-lost", str(e))
+
     def _run(self, harness_cmd, driver, save):
         hrc, herr, drc, lines = runner.pipeline(harness_cmd, [driver], save)
         if hrc != 0:
@@ -232,9 +265,9 @@ class C08(Check):
                 res.samples += ["..."] + [l[:300] for l in runner.extract_case(save, 12)[:6]]
         res.stats = totals
         if totals.get("timer_runs", 0) == 0 or totals.get("timer_not_fired", 0) * 2 > totals.get("timer_runs", 0) or totals.get("starts", 0) == 0 \
-                or totals.get("timer_purged", 0) == 0 or totals.get("refs_checked", 0) == 0:
+                or totals.get("timer_purged", 0) == 0 or totals.get("refs_checked", 0) == 0 or totals.get("attribute_reads", 0) == 0:
             raise core.TieBroken("harness:c08:timer-not-driven", "the real Start / update timer was not exercised: " +
-                                 " ".join(f"{k}={totals.get(k, 0)}" for k in ("starts", "timer_runs", "timer_not_fired", "timer_purged", "refs_checked")))
+                                 " ".join(f"{k}={totals.get(k, 0)}" for k in ("starts", "timer_runs", "timer_not_fired", "timer_purged", "refs_checked", "attribute_reads")))
         res.evaluations = totals.get("updates", 0) + totals.get("queries", 0) + totals.get("scripts", 0)
         res.distinct_nontrivial = totals.get("nontrivial", 0)
         res.traces_validated = totals.get("cases", 0)
@@ -244,7 +277,7 @@ class C08(Check):
                     f"endpoint alphabet 0..{n}, IsInside at every instant -1..{n + 1}; seeded random: 3 own x 2 excluded x 2 included segments over 0..6, nested "
                     "include/exclude forests of 2-6 periods (aligned and unaligned endpoints, missing names, non-clearing follow-up updates), IsInside at every "
                     "boundary +-1, window bounds +-1 and random instants; nested periods activated through the real Start (random definition and activation order, some left inactive) "
-                    "and kept up to date by 1-5 runs of the real update timer with clock jumps of 5 min .. 14 h, IsInside at every boundary +-1, cut-off +-1, now+24h +-1. Calendar: per time zone (UTC, Europe/Berlin, America/New_York, Australia/Lord_Howe, "
+                    "and kept up to date by 1-5 runs of the real update timer with clock jumps of 5 min .. 14 h, IsInside at every boundary +-1, cut-off +-1, now+24h +-1, and the is_inside attribute (GetIsInside + reflected field) read at the virtual present, at the end of the window, beyond it and at boundaries. Calendar: per time zone (UTC, Europe/Berlin, America/New_York, Australia/Lord_Howe, "
                     "Asia/Kolkata) seeded ranges dictionaries over all specification forms, windows on DST-change days, month ends and leap days, directly through "
                     "ScriptFunc and through UpdateRegion with legacy includes/excludes; IsInside at every range boundary +-1 s and random instants; every day definition that names a "
                     "month or counts from the end of the month (every month x every weekday for the last / 5th weekday, month-day forms, ranges) over every day of one whole year per zone; "
@@ -282,7 +315,7 @@ class C08(Check):
 
     def replay(self, path, harness, driver):
         data = json.load(open(path))
-        lines = [l for l in data.get("case", []) if l[:2] in ("Z ", "C ", "P ", "U ", "Q ", "K ")]
+        lines = [l for l in data.get("case", []) if l[:2] in ("Z ", "C ", "P ", "U ", "Q ", "K ", "A ", "T ", "G ")]
         out = self._replay_lines(harness, driver, lines, "replay")
         print(open(self.work("replay.out")).read())
         print("\n".join(out))
